@@ -10,6 +10,7 @@ import MosnVerif.Model.DispatchCodec
 import MosnVerif.Lemmas.PoolRecover
 import MosnVerif.Lemmas.H2ReadLoop
 import MosnVerif.Model.DubboMeta
+import MosnVerif.Lemmas.H1Serve
 /-!
 # C08 — malformed input is contained (property theorems only)
 
@@ -497,5 +498,112 @@ example : walk true (fun i => if i = 2 then .null else if i = 5 ∨ i = 6 then .
 example : walk true (fun i => if i < 6 then .str else .derr) 2 = .err := by decide
 example : riskySites.length = 2 ∧ uncheckedStringAsserts = 1 := by decide
 end dubbometa
+
+/-! ## HTTP/1 (pkg/stream/http/stream.go): the serve loop behind the Dispatch pipe, the pipe itself, the limits -/
+section http1
+open MosnVerif.Model.H1Serve MosnVerif.Gen.C08H1Loop MosnVerif.Lemmas.H1Serve
+
+/-- For EVERY finite input and EVERY parser (fasthttp is an oracle) whose messages consume at least one byte of what they
+were given, `serverStreamConnection.serve()` and `clientStreamConnection.serve()` (what a turn does per class of parser
+answer regenerated: Gen/C08H1Loop) stop turning after at most |input| + 1 parse calls, and they end blocked in Read waiting
+for more bytes or with the failure acted upon (server: connection closed; client: waiting stream reset) — never gone
+without anybody having been told (`Fin.dead`), also when the parser panics. -/
+theorem http1_serve_terminates_per_input (parse : List UInt8 → PStep) (hp : Progress parse) (input : List UInt8)
+    (p : Policy) (hpol : p = srvPolicy ∨ p = cliPolicy) :
+    ∃ c' f, Returns p parse ⟨input, 0, []⟩ c' f ∧ c'.calls ≤ input.length + 1 ∧ 0 < c'.calls ∧
+      (f = .waiting ∨ f = .closed) := by
+  have hc : p.Contained := by cases hpol with
+    | inl h => rw [h]; decide
+    | inr h => rw [h]; decide
+  obtain ⟨c', f, hr, h1, h2⟩ := returns_of_progress p hc.1 parse hp input.length ⟨input, 0, []⟩ rfl
+  exact ⟨c', f, hr, by simpa using h1, by omega, returns_fin_contained p hc parse hr⟩
+
+-- non-vacuity: a parser that takes 3 bytes per message and fails on a short rest: two requests answered, then 400 + close
+example : run srvPolicy (fun b => if b.length ≥ 3 then .msg 3 false false else if b.isEmpty then .needMore false else .err false)
+    9 ⟨[1, 2, 3, 4, 5, 6, 7], 0, []⟩ = some (⟨[7], 3, [.q, .r, .q, .r, .b, .x]⟩, .closed) := by decide
+example : Progress (fun b => if b.length ≥ 3 then .msg 3 false false else .err false) := by
+  intro b n c k h
+  dsimp only at h
+  split at h
+  · cases h; omega
+  · cases h
+-- a parser panic (fasthttp on a Content-Length above 2^31) is answered and the connection closed
+example : run srvPolicy (fun _ => .panic false) 3 ⟨[1], 0, []⟩ = some (⟨[1], 1, [.b, .x]⟩, .closed) := by decide
+example : run cliPolicy (fun _ => .panic false) 3 ⟨[1], 0, []⟩ = some (⟨[1], 1, [.t]⟩, .closed) := by decide
+
+/-- machine-checked witness for the seeded mistake: a serve loop that goes round again behind a parse error never stops
+when the parser fails without consuming (fasthttp discards nothing on a header error) -/
+theorem http1_continue_after_error_diverges (parse : List UInt8 → PStep) (he : ∀ b, parse b = .err false)
+    (c c' : Cfg) (f : Fin) : ¬ Returns { srvPolicy with errAgain := true } parse c c' f :=
+  fun h => spins _ rfl parse he h
+
+/-- `Dispatch` never blocks behind a parse error (or a parser panic) on a server connection: the error turn calls Close,
+the connection's close event reaches `Reset` (the stream connection listens, OnEvent -> Reset), Reset closes `bufChan`,
+and a send on the closed channel panics under Dispatch's deferred recover: Dispatch returns, whatever it still holds.
+The same Reset releases a serve goroutine blocked in Read (closed channel -> error -> serve returns). -/
+theorem http1_dispatch_never_blocks_after_error (len : Nat) :
+    dispatchOn h1_dispatchRecovers (srvPipeAfter srvPolicy.errCloses srvPolicy.errAgain) len = .returns ∧
+    dispatchOn h1_dispatchRecovers (srvPipeAfter srvPolicy.panicCloses false) len = .returns ∧
+    readReleasedByReset = true := by
+  have h1 : srvPipeAfter srvPolicy.errCloses srvPolicy.errAgain = ⟨true, false⟩ := by decide
+  have h2 : srvPipeAfter srvPolicy.panicCloses false = ⟨true, false⟩ := by decide
+  have hr : h1_dispatchRecovers = true := by decide
+  refine ⟨?_, ?_, by decide⟩
+  · rw [h1, hr]; unfold dispatchOn; split <;> simp
+  · rw [h2, hr]; unfold dispatchOn; split <;> simp
+
+/-- what the code does on the CLIENT side, exactly: a failed response read resets the waiting stream and serve returns
+WITHOUT closing the connection (h1_cliErrCloses = 0): a Dispatch that still holds bytes stays blocked until the owner of
+the connection (the pool: activeClient.OnResetStream marks it, OnDestroyStream closes it) closes it; then it returns. -/
+theorem http1_client_dispatch_released_by_close (len : Nat) (h : 0 < len) :
+    dispatchOn h1_dispatchRecovers ⟨false, cliPolicy.errAgain⟩ len = .blockedUntilClose ∧
+    dispatchOn h1_dispatchRecovers ⟨h1_resetCloses.contains "bufChan", false⟩ len = .returns := by
+  have hr : h1_dispatchRecovers = true := by decide
+  have ha : cliPolicy.errAgain = false := by decide
+  have hc : h1_resetCloses.contains "bufChan" = true := by decide
+  rw [hr, ha, hc]
+  unfold dispatchOn
+  have : ¬ len = 0 := by omega
+  simp [this]
+
+-- non-vacuity: a pipe nobody reads from and nobody closed blocks; without the recover the send would panic
+example : dispatchOn true ⟨false, false⟩ 5 = .blockedUntilClose ∧ dispatchOn false ⟨true, false⟩ 5 = .panics := by decide
+
+theorem headRead_large (size headLen avail : Nat) (h : effReader size < headLen) :
+    (headRead size headLen avail).1 ≠ .parsed ∧ (headRead size headLen avail).2 ≤ effReader size ∧
+    (effReader size ≤ avail → (headRead size headLen avail).1 = .tooLarge) := by
+  unfold headRead
+  dsimp only
+  by_cases ha : avail < effReader size
+  · have h1 : ¬ headLen ≤ avail := by omega
+    have h2 : ¬ avail = effReader size := by omega
+    simp only [ha, if_true, h1, h2, if_false]
+    refine ⟨by simp, by omega, by omega⟩
+  · have h1 : ¬ headLen ≤ effReader size := by omega
+    simp only [ha, if_false, h1, if_true]
+    refine ⟨by simp, by omega, fun _ => trivial⟩
+
+/-- The limits, exactly as the code sets them. HEAD: the bufio.Reader of a server connection has the configured
+MaxHeaderSize (default `defaultMaxHeaderSize` = 8192; bufio's minimum is 16), the client's the configured
+max_header_size or the default; a message head LARGER than that reader is never parsed, never more than the reader's size
+is buffered for it, and as soon as that many bytes have arrived the parser fails loudly (ErrSmallBuffer) — which serve
+answers with 400 + Close and returns (client: stream reset).  BODY: the server hands the configured MaxRequestBodySize to
+ReadLimitBody / ContinueReadBody; its DEFAULT IS 0 = NO LIMIT, and the client reads responses with no limit at all
+(fasthttp then allocates for the announced Content-Length: not bounded by this code). -/
+theorem http1_limits_enforced (cfg headLen avail : Nat) (h : effReader (h1_srvReaderSize cfg) < headLen) :
+    (headRead (h1_srvReaderSize cfg) headLen avail).1 ≠ .parsed ∧
+    (headRead (h1_srvReaderSize cfg) headLen avail).2 ≤ effReader (h1_srvReaderSize cfg) ∧
+    (effReader (h1_srvReaderSize cfg) ≤ avail → (headRead (h1_srvReaderSize cfg) headLen avail).1 = .tooLarge) ∧
+    (0 < srvPolicy.errW400 ∧ 0 < srvPolicy.errCloses ∧ srvPolicy.errAgain = false) ∧
+    (0 < cliPolicy.errResets ∧ cliPolicy.errAgain = false) ∧
+    h1_srvReaderSize h1_defaultMaxHeaderSize = 8192 ∧ h1_cliReaderSize 0 = 8192 ∧
+    (∀ b, h1_srvBodyLimit b = b) ∧ h1_defaultMaxRequestBodySize = 0 ∧ h1_cliBodyLimit = 0 := by
+  obtain ⟨a, b, c⟩ := headRead_large (h1_srvReaderSize cfg) headLen avail h
+  exact ⟨a, b, c, by decide, by decide, by decide, by decide, fun _ => rfl, by decide, by decide⟩
+
+-- non-vacuity: default reader, heads of 8192 / 8193 bytes fully arrived; a head that never ends
+example : (headRead 8192 8192 9000).1 = .parsed ∧ (headRead 8192 8193 9000) = (.tooLarge, 8192) ∧
+    (headRead 8192 100000 5000) = (.needMore, 5000) ∧ (headRead 3 17 40) = (.tooLarge, 16) := by decide
+end http1
 
 end MosnVerif.Props.C08
